@@ -254,3 +254,6 @@ _quick("C13", "C13_bufresult", "buffered reply path of the binary protocol, one 
 
 for _p, _extra in (("C02", "; lock flags show/update excluded"), ("C03", ""), ("C04", ""), ("C17", "")):
     _quick(_p, _p + "_step_aof", "as %s_step with <=2 holders and <=1 queued request, the holders persisted holds or not, the step's LOCK with symbolic persistence-timing flags (records are queued on the persistence channel)%s" % (_p, _extra), ["-witness", "200"])
+
+_quick("C13", "C13_binseq", "every program of 3 well-formed binary frames out of 12 forms (INIT, LOCK / UNLOCK on two keys, LOCK with a value frame, LOCK that waits, WILL_LOCK, WILL_UNLOCK, PING, STATE, CALL LIST_LOCK, INIT under another id) on one connection, then Close and a PING on a second connection", ["-witness", "100"], reach=["end", "closed"])
+_thorough("C13", "C13_binseq4", "as C13_binseq with 4 frames", ["-witness", "1000"], reach=["end", "closed"])
